@@ -17,6 +17,8 @@ def run(tier):
             for e in events:
                 if e["e"] in ("store", "load"):
                     combos.add((e["e"], e["path"], e["ty"], e["addr"], e["out"]))
+                elif e["e"] in ("astore", "aload"):
+                    combos.add((e["e"], e["shape"], e["ty"], e["addr"], e["out"]))
             for b, ev in bad:
                 chk.violation("%s outside the C07 Contract: %s" % (ev["e"], mc.pretty(ev)), mc.pretty(ev))
             for ev in events[1:3]:
